@@ -658,3 +658,72 @@ pub fn part_c11_attach(tier: Tier) -> Part {
     part.bounds = json!({"prefixes": prefixes.len(), "terminals": 2, "threads": "2, a third created after the attach"});
     part
 }
+
+/// C05 on threads: every thread's backtrace is that thread's own call stack.
+pub fn part_c05_threads(tier: Tier) -> Part {
+    let mut part = Part::new("c05_thread_backtraces");
+    part.rule = "multi-threaded debuggee stopped at breakpoints in worker code and in main: for every thread of the debugger's thread list the backtrace's first frame is that thread's own pc (independent PTRACE_GETREGS), every further frame address is found as a word of that thread's own stack at ascending addresses, the chain of function names fits the thread's role (workers: .. bump? <- worker, never main; main thread: .. <- main, never worker) and the thread in focus at a stop in bump shows bump <- worker".into();
+    part.exhaustive = false;
+    let reps = if tier == Tier::Quick { 1 } else { 6 };
+    for &(workers, iters, main_iters) in if tier == Tier::Quick { &[(2usize, 3u64, 2u64)][..] } else { &[(2, 3, 2), (3, 2, 2), (4, 2, 1)][..] } {
+        let mt = match Mt::new(workers, iters, main_iters, 2000) {
+            Ok(m) => m,
+            Err(e) => {
+                part.violate("MACHINERY:mt-build", e, json!(null));
+                continue;
+            }
+        };
+        for rep in 0..reps {
+            let setup = vec![mt.bp("bump.1"), mt.bp("mwork.1"), json!({"op": "start"})];
+            let run = session(&mt.built.exe, |obs| if obs.len() < setup.len() { Some(setup[obs.len()].clone()) } else if obs.last().map(|o| kind(o) == "exit" || o["res"]["ok"] == false).unwrap_or(true) { None } else { Some(json!({"op": "continue"})) }, Duration::from_secs(15), 200);
+            let cmds: Vec<Value> = run.obs.iter().map(|o| o["cmd"].clone()).collect();
+            let replay = json!({"engine": "mt", "exe": mt.built.exe, "commands": cmds});
+            part.traces_validated += 1;
+            if run.hang_at.is_some() || run.crashed.is_some() {
+                part.violate("C05:threads:session-broke", format!("[{} #{rep}] hang {:?} crash {:?}", mt.built.program.name, run.hang_at, run.crashed), replay);
+                continue;
+            }
+            for o in run.obs.iter().filter(|o| kind(o) == "breakpoint") {
+                part.states += 1;
+                let pid = o["pid"].as_i64().unwrap_or(0);
+                let focus = o["res"]["tid"].as_i64().unwrap_or(0);
+                let at_line = o["events"].as_array().and_then(|e| e.iter().find(|e| e["ev"] == "breakpoint")).and_then(|e| e["line"].as_u64()).unwrap_or(0);
+                for t in o["threads"].as_array().cloned().unwrap_or_default() {
+                    let tid = t["tid"].as_i64().unwrap_or(0);
+                    let bt = &t["bt"];
+                    if bt.is_null() {
+                        continue; // no backtrace offered for this thread (e.g. inside the clone stub)
+                    }
+                    part.evaluations += 1;
+                    let fns: Vec<String> = bt["fns"].as_array().map(|a| a.iter().map(|f| f.as_str().unwrap_or("?").to_string()).collect()).unwrap_or_default();
+                    let ctx = format!("[{} #{rep}] stop of thread {focus} at line {at_line}: thread {tid} ({}) backtrace {fns:?}", mt.built.program.name, if tid == pid { "main" } else { "worker" });
+                    if bt["frame0_is_thread_pc"] == false {
+                        part.violate("C05:threads:first-frame-is-not-the-thread's-pc", ctx.clone(), replay.clone());
+                    }
+                    if bt["return_addresses_on_own_stack"] == false {
+                        part.violate("C05:threads:return-address-not-on-the-thread's-stack", ctx.clone(), replay.clone());
+                    }
+                    let has = |n: &str| fns.iter().any(|f| f.ends_with(n));
+                    if tid == pid {
+                        if has("worker") || (fns.len() > 1 && !has("main")) {
+                            part.violate("C05:threads:main-thread-shows-foreign-frames", ctx.clone(), replay.clone());
+                        }
+                    } else if has("main") || has("mwork") {
+                        part.violate("C05:threads:worker-shows-main's-frames", ctx.clone(), replay.clone());
+                    }
+                    if tid == focus && at_line == mt.line("bump.1") {
+                        part.distinct_nontrivial += 1;
+                        if !(fns.first().map(|f| f.ends_with("bump")).unwrap_or(false) && fns.get(1).map(|f| f.ends_with("worker")).unwrap_or(false)) {
+                            part.violate("C05:threads:focus-thread-chain-wrong", ctx.clone(), replay.clone());
+                        }
+                    }
+                }
+            }
+            if rep == 0 {
+                part.sample(json!({"program": mt.built.program.name, "stops": run.obs.iter().filter(|o| kind(o) == "breakpoint").count(), "example": run.obs.iter().find(|o| kind(o) == "breakpoint").map(|o| o["threads"].clone())}));
+            }
+        }
+    }
+    part.bounds = json!({"repetitions": reps, "schedule": "chosen by the kernel (sampled)"});
+    part
+}
